@@ -541,3 +541,13 @@ Definition Limb_composite_stmt : Prop := forall thr k (p a b c : L.ru k), wf k p
      val k (l_mr_divin thr k p p1 a b) = mr_divin k R (val k a) (val k b)).
 Lemma Limb_composite : Limb_composite_stmt.
 Proof. intros thr k p a b c Wp HM Wa Wb Wc p1 P M R. subst p1 P M R. apply (limb_composite thr k p Wp HM a b c Wa Wb Wc). Qed.
+
+(* the hypotheses of the conditional limb statements are satisfiable (one-limb modulus 101, operand 5; a two-limb instance) *)
+Example limb_hyps_satisfiable :
+  wf 0 (101 : L.ru 0) /\ RecMod 0 (val 0 (101 : L.ru 0)) /\ wf 0 (5 : L.ru 0) /\ val 0 (5 : L.ru 0) < val 0 (101 : L.ru 0) /\
+  Z.gcd (val 0 (5 : L.ru 0)) (val 0 (101 : L.ru 0)) = 1.
+Proof. vm_compute. repeat split; try discriminate; try reflexivity. Qed.
+Example limb_hyps_satisfiable_two_limbs :
+  wf 1 ((101, 7) : L.ru 1) /\ RecMod 1 (val 1 ((101, 7) : L.ru 1)) /\ wf 1 ((5, 0) : L.ru 1) /\ val 1 ((5, 0) : L.ru 1) < val 1 ((101, 7) : L.ru 1).
+Proof. vm_compute. repeat split; try discriminate; try reflexivity. Qed.
+
